@@ -217,6 +217,56 @@ func runC07(c *fw.Case) (o fw.Outcome) {
 			return
 		}
 	}
+	// Sessions of RELATED calls: the same key / COUNT / BEARER / DIRECTION with other lengths and contents (longer, shorter
+	// with every residue, in between, the first length again), then one parameter changed at a time. A result is a function
+	// of the arguments of THIS call: whatever an implementation keeps from one call to the next (keystream, key schedule,
+	// sub-keys, the IV) must not leak into a call that merely resembles it.
+	if c.Idx%2 == 0 {
+		type pset struct {
+			key         [16]byte
+			count       uint32
+			bearer, dir uint8
+		}
+		base := pset{key, count, bearer, dir}
+		lens := []int{n, 1 + r.Intn(n), 1 + r.Intn(n), n/2 + 1, n, 1 + r.Intn(n+3)}
+		if n > 8 {
+			short := 2*(1+r.Intn((n-1)/2)) - 1 // odd, at most n-2: not a multiple of 4 (nor of 2)
+			mid := short + 1 + r.Intn(n-short)
+			lens = append([]int{n, short, mid, (short + 3) &^ 3, short + 1}, lens...)
+		}
+		for step, ln := range lens {
+			if ln > 4096 {
+				ln = 1 + ln%4096 // the long-message cases keep their related calls short
+			}
+			ps := base
+			switch {
+			case step >= len(lens)-3 && step%3 == 0:
+				ps.count ^= 1 << uint(r.Intn(32))
+			case step >= len(lens)-3 && step%3 == 1:
+				ps.bearer, ps.dir = ps.bearer^1, ps.dir^1
+			case step >= len(lens)-3:
+				ps.key[r.Intn(16)] ^= 1 << uint(r.Intn(8))
+			}
+			m := cornerBytes(r, ln)
+			for alg := uint8(1); alg <= 2; alg++ {
+				want, _ := sec.NEA(alg, ps.key[:], ps.count, ps.bearer, ps.dir, m)
+				got := append([]byte(nil), m...)
+				security.NASEncrypt(alg, ps.key, ps.count, ps.bearer, ps.dir, got)
+				if !bytes.Equal(got, want) {
+					o.Fail(fmt.Sprintf("nea%d-depends-on-history", alg), "NEA%d, call %d of a session of related calls (lengths %v, this one %d octets, parameters %s the first call's): differs from 128-EEA%d at octet %d: library %x, reference %x",
+						alg, step+1, lens, ln, map[bool]string{true: "equal to", false: "one step away from"}[ps == base], alg, firstDiff(got, want), clip(got[firstDiff(got, want):], 12), clip(want[firstDiff(got, want):], 12))
+					return
+				}
+				wantMac, _ := sec.NIA(alg, ps.key[:], ps.count, ps.bearer, ps.dir, m)
+				gotMac, _ := security.NASMacCalculate(alg, ps.key, ps.count, ps.bearer, ps.dir, append([]byte(nil), m...))
+				if !bytes.Equal(gotMac, wantMac) {
+					o.Fail(fmt.Sprintf("nia%d-depends-on-history", alg), "NIA%d, call %d of a session of related calls (lengths %v, this one %d octets): MAC %x, 128-EIA%d gives %x", alg, step+1, lens, ln, gotMac, alg, wantMac)
+					return
+				}
+				o.Count("related_calls", 2)
+			}
+		}
+	}
 	// table coverage of the reference generator in this process (same inputs as the library saw)
 	sr, sq, mul, div := sec.SnowCoverage()
 	cov := 0
